@@ -245,6 +245,8 @@ func (s *SourceDescriptionChunk) Unmarshal(rawPacket []byte) error {
 	}
 
 	s.Source = binary.BigEndian.Uint32(rawPacket)
+	// items left over from an earlier Unmarshal into the same value are not part of this chunk
+	s.Items = nil
 
 	for i := 4; i < len(rawPacket); {
 		if pktType := SDESType(rawPacket[i]); pktType == SDESEnd {
